@@ -390,3 +390,198 @@ theorem iter_arrEnd {st : LoopSt} {sn : Option (List UInt8)} {oa od : Nat} (hD :
     exact fin _ ⟨rfl, rfl⟩
 
 end Binson
+
+namespace Binson
+
+/-- the level of the enclosing container once a nested object has been opened in value position -/
+def objOuterLevel (l : Level) : Level :=
+  { l with ctype := .object, flags := if l.flags = .expValue then .expField else l.flags }
+
+def freshObjLevel : Level := { Level.zero with flags := .expField }
+
+/-- `{` in value position below the originating level: consumed, a fresh state entry is in use -/
+theorem iter_objBegin {st : LoopSt} {sn : Option (List UInt8)} {oa od : Nat} (hD : Deep st oa od)
+    (hcl : classify st.p st.bc = ⟨.objBegin, ⟨st.p.used, 1⟩, st.bc,
+      st.p.setLvl st.p.lvlIdx { st.p.getLvl st.p.lvlIdx with ctype := .object }⟩)
+    (hlt : st.p.used < st.p.size) (hctx : ValCtx (st.p.getLvl st.p.lvlIdx)) (hdm : st.p.depth < st.p.maxDepth) :
+    ∃ st', iter st sn oa od = (st', .cont) ∧ Shape st'.p ∧ st'.p.err = .none ∧ st'.scan = st.scan ∧
+      st'.p.used = st.p.used + 1 ∧ st'.p.depth = st.p.depth + 1 ∧ st.p.Frame st'.p ∧
+      (∀ i, st'.p.getLvl i = if i = st.p.depth then freshObjLevel
+        else if i = st.p.lvlIdx then objOuterLevel (st.p.getLvl st.p.lvlIdx) else st.p.getLvl i) ∧
+      st'.ev = (.objBegin, freshObjLevel) :: st.ev := by
+  have hsh := hD.shape
+  have hli := hsh.lvlIdx_lt
+  have hd1 := hD.d1
+  have hidx : st.p.lvlIdx = st.p.depth - 1 := Parser.lvlIdx_of_pos hd1
+  have hspl := hsh.hsp hD.err st.p.lvlIdx
+  obtain ⟨s1, s2, _, s4, s5, s6, s7, s8, s9, s10, s11⟩ :=
+    setLvl_ok (p0 := st.p) hsh (Parser.Frame.refl _) { st.p.getLvl st.p.lvlIdx with ctype := .object } hli (SpansOk_of_fields rfl rfl hspl)
+  have hgq : ∀ i, (st.p.setLvl st.p.lvlIdx { st.p.getLvl st.p.lvlIdx with ctype := .object }).getLvl i =
+      if i = st.p.lvlIdx then { st.p.getLvl st.p.lvlIdx with ctype := .object } else st.p.getLvl i :=
+    fun i => getLvl_setLvl _ hli i
+  generalize hqdef : st.p.setLvl st.p.lvlIdx { st.p.getLvl st.p.lvlIdx with ctype := .object } = q at hcl s1 s2 s4 s5 s6 s7 s8 s9 s10 s11 hgq
+  have hqi : q.lvlIdx = st.p.lvlIdx := by unfold Parser.lvlIdx; rw [s5]
+  have hqg : q.getLvl q.lvlIdx = { st.p.getLvl st.p.lvlIdx with ctype := .object } := by rw [hqi, hgq]; simp
+  have hli' : st.p.lvlIdx < q.levels.size := by rw [s9]; exact hli
+  obtain ⟨lv', hob, hab, h1, h2, h3, h4, _, h6, h7⟩ :=
+    blocks_value hD (lv := { st.p.getLvl st.p.lvlIdx with ctype := .object }) (tok := .objBegin) q s5 ⟨rfl, rfl⟩ hctx rfl true
+  have hlv' : lv' = objOuterLevel (st.p.getLvl st.p.lvlIdx) := by
+    unfold objOuterLevel
+    by_cases hf : (st.p.getLvl st.p.lvlIdx).flags = .expValue
+    · exact Level.eq_of_fields h4 h3 h2 (by rw [h6 hf]; simp [hf]) h1
+    · exact Level.eq_of_fields h4 h3 h2 (by rw [h7 hf]; simp [hf]) h1
+  unfold iter
+  simp only [hcl, show Tok.objBegin ≠ Tok.error by decide, if_false]
+  rw [hqg, hob]
+  simp only [hab, hqi]
+  show ∃ st', caseObjBegin _ _ _ _ _ = (st', .cont) ∧ _
+  unfold caseObjBegin
+  rw [if_pos hD.cont.has_objBegin, hD.cont.clear_enterObj]
+  -- the outer level written back
+  have hspo : lv'.SpansOk q.size := by rw [s8]; exact SpansOk_of_fields h2 h3 hspl
+  obtain ⟨t1, t2, _, t4, t5, t6, t7, t8, t9, t10, t11⟩ := setLvl_ok (p0 := st.p) s1 s2 lv' hli' hspo
+  have hgw : ∀ i, (q.setLvl st.p.lvlIdx lv').getLvl i = if i = st.p.lvlIdx then lv' else st.p.getLvl i := by
+    intro i
+    rw [getLvl_setLvl _ hli' i]
+    split
+    · rfl
+    · rename_i hne; rw [hgq]; simp [hne]
+  generalize hwdef : q.setLvl st.p.lvlIdx lv' = w at t1 t2 t4 t5 t6 t7 t8 t9 t10 t11 hgw
+  dsimp only
+  have hcond : w.depth < 255 ∧ w.depth < w.maxDepth := by
+    rw [t5, s5, t11, s11]; have := hD.md255; omega
+  rw [if_pos hcond]
+  -- the new level
+  have hdw : w.depth = st.p.depth := by rw [t5, s5]
+  have hn1 : Shape { w with used := w.used + 1, depth := w.depth + 1, cur := w.depth + 1 - 1 } := by
+    refine t1.update ⟨rfl, rfl, rfl, rfl, rfl⟩ t1.hnf t1.hno (by simp; omega) (by simp [Parser.lvlIdx]) (by simp; rw [t4, s4, t8, s8]; omega) ?_
+    intro e i; exact t1.hsp e i
+  have hcur : ({ w with used := w.used + 1, depth := w.depth + 1, cur := w.depth + 1 - 1 } : Parser).cur
+      < ({ w with used := w.used + 1, depth := w.depth + 1, cur := w.depth + 1 - 1 } : Parser).levels.size := hn1.cur_lt
+  rw [touchLvl_of_lt hcur]
+  have hne : ({ w with used := w.used + 1, depth := w.depth + 1, cur := w.depth + 1 - 1 } : Parser).err = .none := by
+    show w.err = .none; rw [t6, s6]; exact hD.err
+  have hcd : w.depth + 1 - 1 = st.p.depth := by rw [hdw]; omega
+  have hzero : ({ w with used := w.used + 1, depth := w.depth + 1, cur := w.depth + 1 - 1 } : Parser).getLvl (w.depth + 1 - 1) = Level.zero := by
+    show w.getLvl (w.depth + 1 - 1) = Level.zero
+    rw [hcd, hgw]
+    have : st.p.depth ≠ st.p.lvlIdx := by omega
+    simp only [this, if_false]
+    exact hD.zeros _ (Nat.le_refl _)
+  dsimp only
+  rw [hzero]
+  rw [finish_cont _ _ ({ w with used := w.used + 1, depth := w.depth + 1, cur := w.depth + 1 - 1 }) _ _ _ _ hcur hne (Or.inr hD.cont)]
+  obtain ⟨u1, u2, _, u4, u5, u6, u7, u8, u9, u10, u11⟩ :=
+    setLvl_ok (p0 := st.p) hn1 (t2.trans ⟨rfl, rfl, rfl, rfl, rfl⟩) { Level.zero with flags := .expField } hcur
+      (SpansOk_of_fields rfl rfl (Level.zero_spansOk _))
+  have hgf : ∀ i, (({ w with used := w.used + 1, depth := w.depth + 1, cur := w.depth + 1 - 1 } : Parser).setLvl (w.depth + 1 - 1)
+      { Level.zero with flags := .expField }).getLvl i =
+      if i = st.p.depth then freshObjLevel else if i = st.p.lvlIdx then objOuterLevel (st.p.getLvl st.p.lvlIdx) else st.p.getLvl i := by
+    intro i
+    have := getLvl_setLvl (p := ({ w with used := w.used + 1, depth := w.depth + 1, cur := w.depth + 1 - 1 } : Parser))
+      { Level.zero with flags := .expField } hcur i
+    rw [this, hcd]
+    split
+    · rfl
+    · show w.getLvl i = _
+      rw [hgw, hlv']
+  refine ⟨_, rfl, u1, ?_, rfl, ?_, ?_, u2, hgf, ?_⟩
+  · rw [u6]; exact hne
+  · rw [u4]; show w.used + 1 = _; rw [t4, s4]
+  · rw [u5]; show w.depth + 1 = _; rw [hdw]
+  · simp only
+    rw [u7]
+    show (Tok.objBegin, _) :: st.ev = _
+    rw [hgf]; simp [hcd]
+
+end Binson
+
+namespace Binson
+
+/-- `}` of a nested object below the originating level: consumed, the state entry is wiped and released -/
+theorem iter_objEnd {st : LoopSt} {sn : Option (List UInt8)} {oa od : Nat} (hD : Deep st oa od)
+    (hcl : classify st.p st.bc = ⟨.objEnd, ⟨st.p.used, 1⟩, st.bc, st.p⟩)
+    (hlt : st.p.used < st.p.size) (hf : (st.p.getLvl st.p.lvlIdx).flags = .expField) (hd2 : 2 ≤ st.p.depth)
+    (hod : od < st.p.depth) :
+    ∃ st', iter st sn oa od = (st', .cont) ∧ Shape st'.p ∧ st'.p.err = .none ∧ st'.scan = st.scan ∧
+      st'.p.used = st.p.used + 1 ∧ st'.p.depth = st.p.depth - 1 ∧ st.p.Frame st'.p ∧
+      (∀ i, st'.p.getLvl i = if i = st.p.depth - 1 then Level.zero else st.p.getLvl i) ∧
+      st'.ev = (.objEnd, st.p.getLvl (st.p.depth - 2)) :: st.ev := by
+  have hsh := hD.shape
+  have hli := hsh.lvlIdx_lt
+  have hidx : st.p.lvlIdx = st.p.depth - 1 := Parser.lvlIdx_of_pos hD.d1
+  have hspl := hsh.hsp hD.err st.p.lvlIdx
+  have hina : (st.p.getLvl st.p.lvlIdx).flags.inArray = false := by rw [hf]; rfl
+  unfold iter
+  simp only [hcl, show Tok.objEnd ≠ Tok.error by decide, if_false]
+  rw [objBlock_end rfl (by decide)]
+  simp only [arrBlock_notArr _ _ _ hina]
+  show ∃ st', caseObjEnd _ _ _ _ _ _ = (st', .cont) ∧ _
+  unfold caseObjEnd
+  rw [if_neg (by simp [hf]), if_pos hD.cont.has_objEnd]
+  have hodn : ¬ od = st.p.depth := by omega
+  dsimp only
+  rw [if_neg hodn, if_neg (by intro h; exact hodn h.1)]
+  -- write the level back, consume, wipe
+  obtain ⟨s1, s2, _, s4, s5, s6, s7, s8, s9, s10, s11⟩ :=
+    setLvl_ok (p0 := st.p) hsh (Parser.Frame.refl _) (st.p.getLvl st.p.lvlIdx) hli hspl
+  have hgq : ∀ i, (st.p.setLvl st.p.lvlIdx (st.p.getLvl st.p.lvlIdx)).getLvl i = st.p.getLvl i := by
+    intro i; rw [getLvl_setLvl _ hli i]; split
+    · rename_i h; rw [h]
+    · rfl
+  generalize st.p.setLvl st.p.lvlIdx (st.p.getLvl st.p.lvlIdx) = q at s1 s2 s4 s5 s6 s7 s8 s9 s10 s11 hgq
+  have hq2 : Shape { q with used := q.used + 1 } := s1.withUsed (q.used + 1) (by rw [s4, s8]; omega)
+  have hcur : ({ q with used := q.used + 1 } : Parser).cur < ({ q with used := q.used + 1 } : Parser).levels.size := hq2.cur_lt
+  rw [touchLvl_of_lt hcur]
+  have hqc : ({ q with used := q.used + 1 } : Parser).cur = st.p.depth - 1 := by
+    show q.cur = _; rw [s7, hsh.hcur, hidx]
+  obtain ⟨t1, t2, _, t4, t5, t6, t7, t8, t9, t10, t11⟩ :=
+    setLvl_ok (p0 := st.p) hq2 (s2.trans ⟨rfl, rfl, rfl, rfl, rfl⟩) Level.zero hcur (Level.zero_spansOk _)
+  have hgw : ∀ i, (({ q with used := q.used + 1 } : Parser).setLvl ({ q with used := q.used + 1 } : Parser).cur Level.zero).getLvl i =
+      if i = st.p.depth - 1 then Level.zero else st.p.getLvl i := by
+    intro i
+    have := getLvl_setLvl (p := ({ q with used := q.used + 1 } : Parser)) Level.zero hcur i
+    rw [this, hqc]
+    split
+    · rfl
+    · exact hgq i
+  generalize ({ q with used := q.used + 1 } : Parser).setLvl ({ q with used := q.used + 1 } : Parser).cur Level.zero = w
+    at t1 t2 t4 t5 t6 t7 t8 t9 t10 t11 hgw
+  have hwd : w.depth = st.p.depth := by rw [t5]; exact s5
+  rw [if_pos (by rw [hwd]; omega : w.depth > 1)]
+  have hw : Shape { w with depth := w.depth - 1, cur := w.depth - 1 - 1 } := by
+    refine t1.update ⟨rfl, rfl, rfl, rfl, rfl⟩ t1.hnf t1.hno (by have := t1.hdp; simp; omega) ?_ t1.hus ?_
+    · simp only [Parser.lvlIdx]; split <;> omega
+    · intro e i; exact t1.hsp e i
+  have hc2 : w.depth - 1 - 1 < ({ w with depth := w.depth - 1, cur := w.depth - 1 - 1 } : Parser).levels.size := hw.cur_lt
+  have hwe : ({ w with depth := w.depth - 1, cur := w.depth - 1 - 1 } : Parser).err = .none := by
+    show w.err = .none; rw [t6]; show q.err = .none; rw [s6]; exact hD.err
+  try dsimp only
+  rw [finish_cont _ _ ({ w with depth := w.depth - 1, cur := w.depth - 1 - 1 }) _ _ _ _ hc2 hwe (Or.inr hD.cont)]
+  have hspp := hw.hsp hwe (w.depth - 1 - 1)
+  obtain ⟨u1, u2, _, u4, u5, u6, u7, u8, u9, u10, u11⟩ :=
+    setLvl_ok (p0 := st.p) hw (t2.trans ⟨rfl, rfl, rfl, rfl, rfl⟩)
+      (({ w with depth := w.depth - 1, cur := w.depth - 1 - 1 } : Parser).getLvl (w.depth - 1 - 1)) hc2 hspp
+  have hgf : ∀ i, (({ w with depth := w.depth - 1, cur := w.depth - 1 - 1 } : Parser).setLvl (w.depth - 1 - 1)
+      (({ w with depth := w.depth - 1, cur := w.depth - 1 - 1 } : Parser).getLvl (w.depth - 1 - 1))).getLvl i =
+      if i = st.p.depth - 1 then Level.zero else st.p.getLvl i := by
+    intro i
+    have := getLvl_setLvl (p := ({ w with depth := w.depth - 1, cur := w.depth - 1 - 1 } : Parser))
+      (({ w with depth := w.depth - 1, cur := w.depth - 1 - 1 } : Parser).getLvl (w.depth - 1 - 1)) hc2 i
+    rw [this]
+    split
+    · rename_i h; rw [h]; exact hgw _
+    · exact hgw i
+  refine ⟨_, rfl, u1, ?_, rfl, ?_, ?_, u2, hgf, ?_⟩
+  · rw [u6]; exact hwe
+  · rw [u4]; show w.used = _; rw [t4]; show q.used + 1 = _; rw [s4]
+  · rw [u5]; show w.depth - 1 = _; rw [hwd]
+  · simp only
+    rw [u7]
+    show (Tok.objEnd, _) :: st.ev = _
+    rw [hgf, hwd]
+    have : st.p.depth - 1 - 1 ≠ st.p.depth - 1 := by omega
+    simp only [this, if_false]
+    rfl
+
+end Binson
